@@ -41,6 +41,35 @@ class Pinned:
 
 class Broken:
     zap: self.nothing + 1
+
+# round 3: falsy values as defaults, defaults that read built-in properties (tracers: the value they see must be the
+# final one), additive defaults over a non-additive one, overridden defaults across a hierarchy, a default position
+class Tr:
+    p0: rt.note('Tr.p0', 0)
+    pn: rt.note('Tr.pn', None)
+    ps: rt.note('Tr.ps', '')
+    pf: rt.note('Tr.pf', False)
+    pt: rt.note('Tr.pt', 5)
+    sum0: rt.note('Tr.sum0', (self.p0, self.pn, self.ps, self.pf, self.pt))
+    acc[additive]: rt.note('Tr.acc', self.p0)
+    mix: rt.note('Tr.mix', self.pt)
+    tr_position: rt.note('Tr.tr_position', self.position)
+    tr_yaw: rt.note('Tr.tr_yaw', self.yaw)
+    tr_width: rt.note('Tr.tr_width', self.width)
+
+class TrMid(Tr):
+    p0: rt.note('TrMid.p0', self.width * 0)
+    pt: rt.note('TrMid.pt', 0)
+    acc[additive]: rt.note('TrMid.acc', self.pn)
+    mix[additive]: rt.note('TrMid.mix', 1)
+    width: rt.note('TrMid.width', 2)
+    tr_parentOrientation: rt.note('TrMid.tr_parentOrientation', self.parentOrientation)
+
+class TrLeaf(TrMid):
+    pn: rt.note('TrLeaf.pn', None)
+    acc[additive]: rt.note('TrLeaf.acc', 'leaf')
+    yaw: rt.note('TrLeaf.yaw', self.p0 * 1.0)
+    position: rt.note('TrLeaf.position', (60 + self.width, 60, 0))
 '''
 
 SEC_WITH = "with *property* *value*"
@@ -88,6 +117,16 @@ def _mk():
     add("with_pitch", "with pitch 0.1", SEC_WITH, given="pitch")
     # heading is derived (final) in 3D mode; in 2D mode OrientedPoint._prepareSpecifiers rewrites it to `facing 0.3`
     add("with_heading", "with heading 0.3", SEC_WITH, given="heading", core=True)
+    # round 3: falsy values given explicitly (logged when evaluated), lazily logged arguments of built-in specifiers
+    add("with_p0", "with p0 rt.lazy('with_p0', 0)", SEC_WITH, given="p0")
+    add("with_pn", "with pn rt.lazy('with_pn', None)", SEC_WITH, given="pn")
+    add("with_ps", "with ps rt.lazy('with_ps', '')", SEC_WITH, given="ps")
+    add("with_pf", "with pf rt.lazy('with_pf', False)", SEC_WITH, given="pf")
+    add("with_pt", "with pt rt.lazy('with_pt', 0)", SEC_WITH, given="pt")
+    add("with_yaw0", "with yaw rt.lazy('with_yaw0', 0)", SEC_WITH, given="yaw")
+    add("with_roll", "with roll 0.13", SEC_WITH, given="roll")
+    add("with_pos_over", "with position rt.lazy('with_pos_over', (20.3, 20.2, 5))", SEC_WITH, given="position")
+    add("at_over", "at rt.lazy('at_over', (20.2, 20.1, 5))", SEC_AT)
     add("at_vec", "at (1,2,0)", SEC_AT, core=True)
     add("at_pt", "at pt", SEC_AT)
     add("at_ob", "at ob", SEC_AT)
@@ -127,6 +166,7 @@ def _mk():
     add("following_from", "following vf from pt for 2", SEC_FOLLOW)
     add("facing_h", "facing 0.4", SEC_FACING_O, core=True)
     add("facing_o", "facing (0.1, 0.2, 0.3)", SEC_FACING_O)
+    add("facing_l0", "facing rt.lazy('facing_l0', 0)", SEC_FACING_O)
     add("facing_f", "facing vf", SEC_FACING_F, core=True)
     add("facing_toward", "facing toward pt", SEC_FACING_T, core=True)
     add("facing_away", "facing away from pt", SEC_FACING_T)
@@ -140,9 +180,27 @@ def _mk():
 INSTANCES = _mk()
 # observation through public syntax only: these instances pass a logging DelayedArgument (rt.lazy) as their value, and the
 # user classes' default expressions call rt.note(<class>.<property>, value) -- both log when the specifier is *evaluated*
-PUBLIC_INSTS = ["with_foo", "with_width", "with_bar", "with_baz"]
-PUBLIC_DEFAULTS = {"Base": ["foo", "bar"], "Derived": ["foo", "baz", "fin"], "Deeper": ["bar", "qux"], "Pinned": ["quux"]}
-CLASSES = ["Object", "Base", "Derived", "Deeper", "Pinned", "Broken"]
+PUBLIC_INSTS = ["with_foo", "with_width", "with_bar", "with_baz", "with_p0", "with_pn", "with_ps", "with_pf", "with_pt",
+                "with_yaw0", "with_pos_over", "at_over", "facing_l0"]
+PUBLIC_DEFAULTS = {"Base": ["foo", "bar"], "Derived": ["foo", "baz", "fin"], "Deeper": ["bar", "qux"], "Pinned": ["quux"],
+                   "Tr": ["p0", "pn", "ps", "pf", "pt", "sum0", "acc", "mix", "tr_position", "tr_yaw", "tr_width"],
+                   "TrMid": ["p0", "pt", "acc", "mix", "width", "tr_parentOrientation"],
+                   "TrLeaf": ["pn", "acc", "yaw", "position"]}
+# an additive default evaluates the expressions of *all* classes of the MRO that define the property (one slot of the log)
+ADDITIVE = {"Tr": ["acc"], "TrMid": ["acc", "mix"], "TrLeaf": ["acc"]}
+# tag of a logging value / default expression -> (property, fingerprint of the literal value it yields)
+VALUE = {"with_foo": ("foo", "7.0"), "with_bar": ("bar", "2.0"), "with_baz": ("baz", "4.0"), "with_width": ("width", "3.0"),
+         "with_p0": ("p0", "0.0"), "with_pn": ("pn", "None"), "with_ps": ("ps", "''"), "with_pf": ("pf", "False"),
+         "with_pt": ("pt", "0.0"), "with_yaw0": ("yaw", "0.0"), "Base.foo": ("foo", "1.0"), "Deeper.bar": ("bar", "5.0"),
+         "Tr.p0": ("p0", "0.0"), "Tr.pn": ("pn", "None"), "Tr.ps": ("ps", "''"), "Tr.pf": ("pf", "False"), "Tr.pt": ("pt", "5.0"),
+         "TrMid.p0": ("p0", "0.0"), "TrMid.pt": ("pt", "0.0"), "TrMid.width": ("width", "2.0"), "TrLeaf.pn": ("pn", "None")}
+# `with P v` instances used to probe what a specifier does to an already specified property P (harness/c06.py probe_groups)
+# position: in 3D a point above `ob` (so `on ob` visibly projects it); in 2D mode the projection keeps x and y and everything is
+# flat, so a modification would not change the value: there the probe uses a point that is NOT over the surface (the modifying
+# evaluation then fails, which is observable)
+PROBE_WITH = {"position": ("with_pos_over", "with_pos"), "parentOrientation": "with_pori", "yaw": "with_yaw", "pitch": "with_pitch",
+              "roll": "with_roll", "regionContainedIn": "with_rci"}
+CLASSES = ["Object", "Base", "Derived", "Deeper", "Pinned", "Broken", "Tr", "TrMid", "TrLeaf"]
 ALL_SECTIONS = sorted({i["sec"] for i in INSTANCES})
 
 
